@@ -38,7 +38,7 @@ def build_field_domains():
     # an explicitly empty list: no --buildpack at all (the builder's own order)
     # references spelled like paths that exist below the crate root (and the default "some/bp", which does too)
     bps = [[]] + [["fixture"], ["."], [".."], ["fixture/file.txt"], ["some/bp", "./fixture/sub"], ["some"]] + [[a] for a in TNE] + [[a, b] for a, b in itertools.product(TNE[:5], repeat=2)] + [[a, b, c] for a, b, c in itertools.product(TNE[:3], repeat=3)]
-    return {"builder": TNE, "env": env_maps(), "buildpacks": bps, "app_dir": ["fixture", "ABS", "fixture/", "./fixture", "SYMLINK", "LINKDOTDOT", "LINKDOTDOT+PRE"], "preprocessor": [False, True]}
+    return {"builder": TNE, "env": env_maps(), "buildpacks": bps, "app_dir": ["fixture", "ABS", "fixture/", "./fixture", "SYMLINK", "LINKDOTDOT", "LINKDOTDOT+PRE", "INTMP", "INTMP+PRE"], "preprocessor": [False, True]}
 
 
 def container_field_domains():
@@ -94,6 +94,9 @@ def special_layout(kind):
             return
         if kind == "SYMLINK":
             os.symlink(os.path.join(crate, "fixture"), os.path.join(crate, "app-link"))
+        elif kind == "INTMP":
+            # an app directory generated below the system temp dir (TMPDIR of the run)
+            shutil.copytree(os.path.join(crate, "fixture"), os.path.join(root, "tmp", "generated-app"))
         else:
             os.makedirs(os.path.join(root, "store", "v1", "inner"))
             shutil.copytree(os.path.join(crate, "fixture"), os.path.join(root, "store", "v1", "app"))
@@ -116,6 +119,12 @@ def run_cfg(arg):
     elif b2["app_dir"] == "SYMLINK":
         b2["app_dir"] = "app-link"
         layout = special_layout("SYMLINK")
+    elif b2["app_dir"].startswith("INTMP"):
+        if b2["app_dir"].endswith("+PRE"):
+            b2["preprocessor"] = True
+        b2["app_dir"] = os.path.join(root, "tmp", "generated-app")
+        layout = special_layout("INTMP")
+        app_real = b2["app_dir"]
     elif b2["app_dir"].startswith("LINKDOTDOT"):
         if b2["app_dir"].endswith("+PRE"):
             b2["preprocessor"] = True
@@ -128,6 +137,7 @@ def run_cfg(arg):
         # resolve what pack was given while the world still exists
         res["path_real"] = [os.path.realpath(e["argv"][e["argv"].index("--path") + 1]) for e in res["log"] if e["prog"] == "pack" and "--path" in e["argv"]]
         res["app_real"] = os.path.realpath(app_real)
+        res["app_real_listing"] = {os.path.relpath(os.path.join(dp, f), app_real): open(os.path.join(dp, f)).read() for dp, dn, fn in os.walk(app_real) for f in fn}
         res["preprocessor_effective"] = b2["preprocessor"]
         res["mounts_effective"] = c["mounts"]
 
@@ -176,8 +186,8 @@ def judge(r, b, c):
             v.append(("preprocessor-on-fixture", "with a preprocessor pack was pointed at the fixture itself"))
         elif pb["entry"]["path_listing"] != want:
             v.append(("preprocessed-app-content", f"app dir given to pack holds {pb['entry']['path_listing']}, expected {want}"))
-    if not r["fixture_same"]:
-        v.append(("fixture-modified", "the fixture directory was modified"))
+    if not r["fixture_same"] or r["app_real_listing"] != FIXTURE_FILES:
+        v.append(("fixture-modified", f"the configured app directory was modified: it now holds {r['app_real_listing']}"))
     runs = [d for d in dec if d["kind"] == "run"]
     if len(runs) != 1:
         v.append(("docker-run-count", f"{len(runs)} docker run invocations"))
@@ -319,7 +329,7 @@ def run(ctx):
     res.cov("evaluations", len(cfgs) + len(pairs) + pk)
     res.cov("distinct_nontrivial", len(cfgs) - 2)
     res.cov("distinct_outcomes", len(shapes))
-    res.cov("rule", "configurations = each field varied over its full domain against defaults (builder over 9 strings; env maps of <=2 keys x 10 value strings incl. '', leading dashes, spaces, '=', Unicode, shell metacharacters, and keys that are also set (differently) in the test process's own environment (proxy variables, DOCKER_HOST, K); buildpack lists of length <=3 plus references spelled like paths that exist below the crate root; relative/absolute app dir; preprocessor; entrypoint None+10 strings; commands of <=2 elements; all port subsets of {80,8080,65535}; <=2 bind mounts over 4 synthetic paths plus existing sources: a directory, a symlink to it and a redundant spelling of it, up to 3 at once); build+rebuild pairs incl. every pair of preprocessor settings {none, A, B} with the app content pack saw judged per build and, in thorough, all pairs of fields over thinned domains; each run through the real TestRunner with stand-in CLIs; plus 5 sets of on-the-fly packaged references (current crate, workspace buildpacks, a composite, overlapping dependency closures) x both expectations in a really compiled generated workspace; the logged argv is decoded with reference parsers and compared with the configuration; non-trivial = non-default configurations")
+    res.cov("rule", "configurations = each field varied over its full domain against defaults (builder over 9 strings; env maps of <=2 keys x 10 value strings incl. '', leading dashes, spaces, '=', Unicode, shell metacharacters, and keys that are also set (differently) in the test process's own environment (proxy variables, DOCKER_HOST, K); buildpack lists of length <=3 plus references spelled like paths that exist below the crate root; relative/absolute app dir, also one below the run's temp dir; preprocessor; entrypoint None+10 strings; commands of <=2 elements; all port subsets of {80,8080,65535}; <=2 bind mounts over 4 synthetic paths plus existing sources: a directory, a symlink to it and a redundant spelling of it, up to 3 at once); build+rebuild pairs incl. every pair of preprocessor settings {none, A, B} with the app content pack saw judged per build and, in thorough, all pairs of fields over thinned domains; each run through the real TestRunner with stand-in CLIs; plus 5 sets of on-the-fly packaged references (current crate, workspace buildpacks, a composite, overlapping dependency closures) x both expectations in a really compiled generated workspace; the logged argv is decoded with reference parsers and compared with the configuration; non-trivial = non-default configurations")
     res.cov("exhaustive", True)
     for i in (3, len(cfgs) // 2, len(cfgs) - 1):
         if 0 <= i < len(cfgs):
